@@ -180,7 +180,9 @@ class World:
             v = spec['lit']
             if spec.get('tuple') and isinstance(v, list):
                 v = tuple(v)
-            if spec.get('np') == 'float':
+            if spec.get('np') == 'arr0':
+                v = np.array(float(v))         # a 0-d array where a scalar is expected
+            elif spec.get('np') == 'float':
                 v = np.float64(v)
             elif spec.get('np') == 'int':
                 v = np.int64(v)
@@ -762,7 +764,7 @@ def make_spec(kind, world, cfg, rng, recv_cls, recv_ref=None):
             # SymPy numbers and symbols are accepted by the trigonometric builders
             s['sym'] = rng.choice(['Number', 'Number', 'Symbol'])
         elif kind in ('ang', 'sc', 's01') and rng.random() < 0.15:
-            s['np'] = 'float'
+            s['np'] = rng.choice(['float', 'float', 'arr0'])
         elif kind in ('int', 'posint') and rng.random() < 0.1:
             s['np'] = 'int'
         return s
